@@ -447,6 +447,215 @@ func runRecv(v RecvVec) ([]string, vt.Ev) {
 	return diffs, obs
 }
 
+// ---------------------------------------------------------------- shared feature values
+
+// SharedIn is a scenario of Bind.tla's last section: feature values (kinds), sessions
+// (feature value, account, request) and a schedule (k-th occurrence of s: 1 = the session
+// opens and waits for the request, 2 = the request arrives and is answered).
+type SharedIn struct {
+	Role  string   `json:"role"`
+	Feats []string `json:"feats"`
+	Sess  []struct {
+		F    int   `json:"f"`
+		Acct int   `json:"acct"`
+		ID   []int `json:"id"`
+		Res  []int `json:"res"`
+	} `json:"sess"`
+	Sched []int `json:"sched"`
+	// Mode: "negotiator" = the sessions of a feature value share one xmpp.Negotiator (and its
+	// feature list); "list" = one Negotiator per session, all returning the same feature list
+	// value. Chosen by the driver (alternating) when empty.
+	Mode string `json:"mode,omitempty"`
+}
+type SharedExp struct {
+	Per   []RecvExp `json:"per"`
+	Fresh []bool    `json:"fresh"`
+}
+type SharedVec struct {
+	In  SharedIn  `json:"in"`
+	Exp SharedExp `json:"exp"`
+}
+
+var accounts = []string{"", "me@example.net", "you@example.net"}
+
+type shSess struct {
+	recvRun
+	conn    *vt.Conn
+	reads   int
+	mark    int
+	sig     chan string   // session -> driver: "parked" | "done"
+	resume  chan struct{} // driver -> session
+	started bool
+	parked  bool
+}
+
+func stall(what string) {
+	fmt.Println("STALL: " + what)
+	os.Exit(3)
+}
+
+func (x *shSess) wait(what string) string {
+	select {
+	case m := <-x.sig:
+		return m
+	case <-time.After(30 * time.Second):
+		stall(what)
+	}
+	return ""
+}
+
+// runShared negotiates all sessions of the scenario with the SAME feature list values. Every
+// session runs in its own goroutine, but only one of them runs at a time: a session parks
+// when it asks for its bind request and goes on when the schedule says so.
+func runShared(v SharedVec) (diffs []string, obs vt.Ev) {
+	diff := func(f string, a ...interface{}) { diffs = append(diffs, fmt.Sprintf(f, a...)) }
+	n := len(v.In.Sess)
+	sess := make([]*shSess, n)
+	var mu sync.Mutex
+	cur := -1 // the session whose step is running
+	// the feature list values, built once
+	lists := make([][]xmpp.StreamFeature, len(v.In.Feats))
+	negs := make([]xmpp.Negotiator, len(v.In.Feats))
+	var stray []string
+	for f, kind := range v.In.Feats {
+		f, kind := f, kind
+		feat := feature(kind, func() jid.JID {
+			mu.Lock()
+			defer mu.Unlock()
+			if cur >= 0 {
+				return sess[cur].remote
+			}
+			return jid.JID{}
+		}, func(c cbCall) {
+			mu.Lock()
+			defer mu.Unlock()
+			if cur < 0 || v.In.Sess[cur].F-1 != f {
+				stray = append(stray, fmt.Sprintf("the callback of feature value %d was called with (%q, %q) outside a bind of one of its sessions", f+1, c.remote, c.res))
+				return
+			}
+			sess[cur].calls = append(sess[cur].calls, c)
+		})
+		list := []xmpp.StreamFeature{feat}
+		lists[f] = list
+		negs[f] = xmpp.NewNegotiator(func(*xmpp.Session, *xmpp.StreamConfig) xmpp.StreamConfig {
+			return xmpp.StreamConfig{Features: list}
+		})
+	}
+	for i := range sess {
+		in := v.In.Sess[i]
+		x := &shSess{conn: vt.NewConn(), sig: make(chan string, 1), resume: make(chan struct{})}
+		x.remote = jid.MustParse(accounts[in.Acct])
+		x.conn.Starve = func() {
+			x.reads++
+			switch x.reads {
+			case 1:
+				x.conn.FeedString(strings.Replace(clientHdr, "me@example.net", accounts[in.Acct], 1))
+			case 2:
+				x.sig <- "parked"
+				<-x.resume
+				x.mark = len(x.conn.WireString())
+				x.conn.FeedString(bindRequest(str(in.ID), in.Res))
+			default:
+				x.conn.CloseIn()
+			}
+		}
+		sess[i] = x
+	}
+	step := func(i int) {
+		x := sess[i]
+		mu.Lock()
+		cur = i
+		mu.Unlock()
+		switch {
+		case !x.started:
+			x.started = true
+			go func() {
+				f := v.In.Sess[i].F - 1
+				neg := negs[f]
+				if v.In.Mode == "list" {
+					list := lists[f]
+					neg = xmpp.NewNegotiator(func(*xmpp.Session, *xmpp.StreamConfig) xmpp.StreamConfig {
+						return xmpp.StreamConfig{Features: list}
+					})
+				}
+				func() {
+					defer func() { x.panicked = recover() }()
+					x.s, x.err = xmpp.ReceiveSession(context.Background(), x.conn, xmpp.Secure|xmpp.Authn, neg)
+				}()
+				x.sig <- "done"
+			}()
+			x.parked = x.wait("a session neither asked for its bind request nor returned") == "parked"
+		case x.parked:
+			x.parked = false
+			x.resume <- struct{}{}
+			if x.wait("a session did not return after its bind request") != "done" {
+				stall("a session asked for a second bind request")
+			}
+		}
+		mu.Lock()
+		cur = -1
+		mu.Unlock()
+	}
+	for _, s := range v.In.Sched {
+		step(s - 1)
+	}
+	for i, x := range sess { // (a schedule that does not let every session finish)
+		if x.parked {
+			step(i)
+		}
+	}
+	// every session on its own
+	per := make([]vt.Ev, n)
+	assigned := make([]string, n)
+	for i, x := range sess {
+		if w := x.conn.WireString(); x.mark > 0 && x.mark <= len(w) {
+			x.reply = w[x.mark:]
+		}
+		d, o, j := judgeRecv(CbOfKind(v.In.Feats[v.In.Sess[i].F-1]), v.Exp.Per[i], &x.recvRun)
+		for _, t := range d {
+			diff("session %d (%s, feature value %d): %s", i+1, x.remote, v.In.Sess[i].F, t)
+		}
+		o["assigned"] = j
+		per[i], assigned[i] = o, j
+	}
+	for _, t := range stray {
+		diff("%s", t)
+	}
+	// freshness across sessions, accounts and feature values (C12_BindFresh)
+	for i := 0; i < n; i++ {
+		for k := i + 1; k < n; k++ {
+			if !v.Exp.Fresh[i] || !v.Exp.Fresh[k] || assigned[i] == "" || assigned[k] == "" {
+				continue
+			}
+			ji, e1 := jid.Parse(assigned[i])
+			jk, e2 := jid.Parse(assigned[k])
+			if e1 != nil || e2 != nil {
+				continue
+			}
+			if ji.Resourcepart() == jk.Resourcepart() {
+				same := "different feature values"
+				if v.In.Sess[i].F == v.In.Sess[k].F {
+					same = "the same feature value"
+				}
+				diff("sessions %d and %d (%s) were assigned the same 'random' resourcepart: %q and %q - the resource is not fresh", i+1, k+1, same, assigned[i], assigned[k])
+			}
+		}
+	}
+	outcome := ""
+	for _, o := range per {
+		outcome += fmt.Sprint(o["outcome"]) + " "
+	}
+	return diffs, vt.Ev{"sessions": per, "outcome": strings.TrimSpace(outcome)}
+}
+
+// CbOfKind: BindCustom(nil) behaves like BindResource() (CbOf in Bind.tla).
+func CbOfKind(kind string) string {
+	if kind == "nil" {
+		return "random"
+	}
+	return kind
+}
+
 // ---------------------------------------------------------------- main
 
 func lines(path string, f func([]byte)) {
@@ -466,7 +675,7 @@ func lines(path string, f func([]byte)) {
 
 func main() {
 	if len(os.Args) < 3 {
-		fmt.Fprintln(os.Stderr, "usage: bind init|recv <scenarios.ndjson>")
+		fmt.Fprintln(os.Stderr, "usage: bind init|recv|shared <scenarios.ndjson>")
 		os.Exit(2)
 	}
 	go func() {
@@ -477,7 +686,8 @@ func main() {
 	sum := vt.Summary{Extra: map[string]interface{}{}}
 	outcomes := map[string]int{}
 	distinct := map[string]bool{}
-	skipped := 0
+	skipped, lineNo, sessions := 0, 0, 0
+	byMode := map[string]int{}
 	lines(os.Args[2], func(b []byte) {
 		var diffs []string
 		var obs vt.Ev
@@ -502,6 +712,19 @@ func main() {
 			}
 			diffs, obs = runRecv(v)
 			vec = v
+		case "shared":
+			var v SharedVec
+			if err := json.Unmarshal(b, &v); err != nil {
+				panic(err)
+			}
+			if v.In.Mode == "" {
+				v.In.Mode = []string{"negotiator", "list"}[lineNo%2]
+			}
+			lineNo++
+			diffs, obs = runShared(v)
+			byMode[v.In.Mode]++
+			sessions += len(v.In.Sess)
+			vec = v
 		default:
 			os.Exit(2)
 		}
@@ -523,6 +746,10 @@ func main() {
 	})
 	sum.Extra["outcomes"] = outcomes
 	sum.Extra["skipped_invalid_jid"] = skipped
+	if os.Args[1] == "shared" {
+		sum.Extra["sessions"] = sessions
+		sum.Extra["by_mode"] = byMode
+	}
 	sum.Distinct = len(distinct)
 	sum.Traces = sum.Evaluations
 	sum.Print()
